@@ -276,19 +276,13 @@ func (u *UnitsDefinition) parse(data string) (any, error) {
 			Message: "Empty string cannot be parsed as " + u.BaseUnitValue.NameLongPlural(),
 		}
 	}
-	u.cacheMutex.Lock()
-	if u.reCache == nil {
-		if err := u.updateReCache(); err != nil {
-			u.cacheMutex.Unlock()
-			return 0, &UnitParseError{
-				Message: "Cannot parse '" + data + "' as " + u.BaseUnitValue.NameLongPlural() + ": invalid units definition",
-				Cause:   err,
-			}
+	re, reSubExpNames, parserErr := u.parser()
+	if parserErr != nil {
+		return 0, &UnitParseError{
+			Message: "Cannot parse '" + data + "' as " + u.BaseUnitValue.NameLongPlural() + ": invalid units definition",
+			Cause:   parserErr,
 		}
 	}
-	re := u.reCache
-	reSubExpNames := u.reSubExpNames
-	u.cacheMutex.Unlock()
 	match := re.FindStringSubmatch(data)
 	if match == nil {
 		return u.buildUnitParseError(data)
@@ -375,6 +369,19 @@ func (u *UnitsDefinition) handleParseMultiplier(
 	return intNumber, floatNumber, isFloat, nil
 }
 
+// parser hands out the parser of the units definition, which it builds on first use. The mutex is released by a
+// deferred call: a definition that makes building the parser panic must not leave it locked for every later use.
+func (u *UnitsDefinition) parser() (*regexp.Regexp, map[string]int, error) {
+	u.cacheMutex.Lock()
+	defer u.cacheMutex.Unlock()
+	if u.reCache == nil {
+		if err := u.updateReCache(); err != nil {
+			return nil, nil, err
+		}
+	}
+	return u.reCache, u.reSubExpNames, nil
+}
+
 // updateReCache requires cacheMutex to be held by the caller. It fails if the units definition cannot be turned into
 // a parser (e.g. a negative multiplier in a definition received from a plugin).
 func (u *UnitsDefinition) updateReCache() error {
@@ -382,6 +389,9 @@ func (u *UnitsDefinition) updateReCache() error {
 	if u.MultipliersValue != nil {
 		for _, multiplier := range u.getSortedMultipliersCacheLocked() {
 			unit := u.MultipliersValue[multiplier]
+			if unit == nil {
+				return fmt.Errorf("multiplier %d has no unit definition", multiplier)
+			}
 			if multiplier < 2 {
 				// 1 is the base unit (its group would shadow the base unit's and count it twice), less is not a unit.
 				return fmt.Errorf("invalid multiplier %d for unit %s", multiplier, unit.NameLongPlural())
